@@ -138,6 +138,7 @@ def main():
                       ignore_errors=True)
     json.dump(meta, open(os.path.join(out, 'meta.json'), 'w'), indent=1)
     shutil.rmtree(src, ignore_errors=True)
+    shutil.rmtree(root, ignore_errors=True)
     return 0
 
 
